@@ -119,6 +119,18 @@ fn main() {
         }
     }
 
+    // ---- adversarial payloads (oracle-only: the model abstracts payloads away), generated in every run
+    {
+        let mut r3 = Rng::new(args.seed ^ 0x5EED_DA7A);
+        p2p::raw::raw_directed(&mut r3);
+        let nraw = if args.tier == "thorough" { 4000 } else { 400 };
+        for k in 0..nraw {
+            let mut rr = Rng::new(r3.next());
+            if k % 2 == 0 { p2p::raw::raw_responder(&mut rr, format!("raw-responder #{} seed={} tier={}", k, args.seed, args.tier), 150); }
+            else { p2p::raw::raw_initiator(&mut rr, format!("raw-initiator #{} seed={} tier={}", k, args.seed, args.tier), 150); }
+        }
+        emit_stat("raw_payload_histories_oracle", nraw as u64 + 15);
+    }
     // ---- random histories
     for i in 0..args.n {
         let mut r2 = Rng::new(rng.next());
